@@ -24,7 +24,7 @@ PROPERTY = "C02"
 META = {
     "bounds": {
         "quick": "programs `*= p0; c0 := V0; back: ...`: every single item and every pair starting with {inferred constant, inferred label, .incbin, *=, @= RAM} over 17 item kinds (LoROM; singles under HiROM) (inferred-width instructions from a := constant / backward label / macro parameter / loop variable, explicit sizes, data, .ascii, .text, .incbin of symbolic length < 0x120, *= and @= moves into ROM and RAM), each item followed by a label; 6 wrappers; 10 name-reuse patterns; LoROM and HiROM; p0, move operands, V0 (24 bit) symbolic",
-        "thorough": "all pairs, triples over the width-/position-relevant kinds + VERIF_SEED-drawn 300 programs of 4-5 items inside nested wrappers",
+        "thorough": "all pairs, triples over the width-/position-relevant kinds + VERIF_SEED-drawn 150 programs of 4-5 items inside nested wrappers",
     },
     "outside": ["programs that leave the mapped ROM range", "forward references with inferred width (rejected by design)", ".incbin longer than the bound", "duplicate definitions in one scope"],
     "oracle": "marker positions from the real output (two-run differential) + textbook advance formula (oracles/layout.py); label values read from `.dl label` bytes and Resolver.get_all_labels()",
@@ -243,7 +243,7 @@ def jobs(tier, seed):
         seqs = [s for s in seqs if len(s) == 1 or (s[0] in first and s[1] != s[0])]
     else:
         first3 = {"inf-const", "inf-back", "incbin", "star", "at-ram"}
-        seqs = [s for s in seqs if len(s) < 3 or (len(set(s)) == 3 and s[0] in first3 and s[1] in first3 and s[2] in interesting)]
+        seqs = [s for s in seqs if len(s) < 3 or (len(set(s)) == 3 and s[0] in first3 and s[1] in first3 and s[2] in first3)]
     for rom in ("low", "high"):
         for s in seqs:
             if rom == "high" and len(s) > 1 and (tier == "quick" or not (set(s) & set(MOVES) or "incbin" in s or "inf-back" in s)):
@@ -259,7 +259,7 @@ def jobs(tier, seed):
             out.append({"id": f"{rom}/reuse/{pat}", "rom": rom, "kind": "reuse", "pattern": pat})
     if tier == "thorough":
         rnd = random.Random(seed * 401 + 9)
-        for k in range(300):
+        for k in range(150):
             items = [rnd.choice(ITEMS) for _ in range(rnd.randint(4, 5))]
             out.append({"id": f"rand/{k:03d}", "rom": rnd.choice(["low", "high"]), "kind": "seq", "items": items, "wrapper": rnd.choice([None, "block", "scope", "macro2", "for", "if"])})
     return out
